@@ -303,6 +303,10 @@ def join(a: Val, b: Val) -> Val:
         a2, b2 = a.flat(), b.flat()
         if a2 is not a or b2 is not b:
             return join(a2, b2)
+    if a.tags.get("cvx") == "constraint" and b.tags.get("cvx") == "constraint" and a is not b:
+        alts = list(a.tags.get("alts") or [a]) + list(b.tags.get("alts") or [b])
+        return Val(U, a.data | b.data, a.shp | b.shp, a.ctrl | b.ctrl, None, None, None, None, None, a.refs | b.refs,
+                   None, mk_term("phi", a.term, b.term), {"cvx": "constraint", "alts": alts, "node": a.tags.get("node")})
     tags = {}
     for k, v in a.tags.items():
         if k in b.tags:
